@@ -228,3 +228,20 @@ func diffCensus(base, now map[string]int) []string {
 }
 
 var _ adminservice.AdminServiceClient = (*cluster)(nil)
+
+func (c *cluster) scriptsDone() bool {
+	c.mu.Lock()
+	defer c.mu.Unlock()
+	for i := 1; i <= c.n; i++ {
+		if !c.scriptDone[i] {
+			return false
+		}
+	}
+	return true
+}
+
+func (c *cluster) scriptDoneFor(i int) bool {
+	c.mu.Lock()
+	defer c.mu.Unlock()
+	return c.scriptDone[i]
+}
